@@ -26,6 +26,14 @@ VALS_ALL = ['plainv', 'shared', 'shared2', 'recv', 'reprerr', 'tagged', 'usesve'
             'pathsv']
 DOCS12 = ['plain', 'scanerr', 'parseerr', 'comperr', 'ctorerr', 'yamldir', 'tagdir', 'usetag', 'stdtag', 'anchors',
           'usealias', 'rec']
+ENC_ENDS = ('ok', 'SE', 'PE', 'CE', 'KE')
+
+
+def ENC(forms, ends, encs=('u8', 'ule', 'ube')):
+    from ..drivers.api_world import enc_family
+    return enc_family(encs, forms, ends)
+
+
 BASE = dict(LoadOps=[], GenOps=[], DumpOps=[], Classes=['safe'], Backends=['py'], IOs=['mem'], Impls=[True], Docs=[],
             Vals=[], MaxHist=2, MaxStream=1, MaxSingle=1, Faults=False, Mutation='none', KeepHist=True, MaxGens=1, Persistent=False)
 
@@ -85,6 +93,18 @@ HIST_CONFIGS = [
     ('load4', cfg(LoadOps=['load', 'load_all'], GenOps=['load_all'], Docs=['tagdir', 'usetag', 'anchors'], MaxHist=4), 't'),
     ('wide2', cfg(LoadOps=['load', 'compose'], GenOps=['load_all'], Classes=['safe', 'unsafe'], Docs=DOCS_ALL[:14], MaxHist=2), 't'),
     ('gens2', cfg(LoadOps=['load'], GenOps=['load_all', 'parse'], Docs=['tagdir', 'usetag', 'anchors'], MaxHist=4, MaxGens=2), 't'),
+    # documents given as ENCODED BYTES (Api.tla EncDocs: encoding x how the stream answers read() x width of the multi-byte
+    # character x its offset against the decode points x how the call ends).  Linear in the family: every complete call that
+    # fails behind the first decode point (enccall) and every suspended / abandoned scan / parse generator (encgen) must leave
+    # the library-global state as it was; encpair: results of byte-input calls (stream and bytes object) after such calls.
+    ('enccall', cfg(LoadOps=['load'], IOs=['file'], Docs=ENC(('f', 'r2', 'r3'), ('SE', 'PE', 'CE')), MaxHist=1), 'q'),
+    ('encgen', cfg(GenOps=['scan', 'parse'], IOs=['file'], Docs=ENC(('f', 'r3'), ('ok',)), MaxHist=3), 'q'),
+    ('encpair', cfg(LoadOps=['load'], IOs=['file', 'mem'], Docs=['u8_f_c21_CE', 'ule_r3_c41_SE', 'ube_f_c42_PE', 'u8_r3_c32_ok',
+                                                                  'ule_f_c20_ok', 'plain'], MaxHist=2), 'qt'),
+    ('enccallt', cfg(LoadOps=['load', 'compose'], IOs=['file'], Backends=['py', 'c'], Docs=ENC(('f', 'r1', 'r2', 'r3'), ENC_ENDS),
+                     MaxHist=1), 't'),
+    ('encgent', cfg(GenOps=ALL_GEN, IOs=['file'], Docs=ENC(('f', 'r2', 'r3'), ('ok',)), MaxHist=3), 't'),
+    ('encgenc', cfg(GenOps=['scan', 'load_all'], IOs=['file'], Backends=['c'], Docs=ENC(('f', 'r3'), ('ok',)), MaxHist=2), 't'),
 ]
 STREAM_CONFIGS = [
     ('streams3', cfg(LoadOps=['load_all', 'compose_all', 'parse', 'scan'], Backends=['py', 'c'], Docs=['plain'] + D5[1:], MaxHist=1,
@@ -101,6 +121,9 @@ STREAM_CONFIGS = [
                       MaxStream=2), 'q'),
     ('ostreams3', cfg(LoadOps=['load_all'], Classes=['unsafe', 'user'], Backends=['py', 'c'], Docs=['plain'] + OBJ_DOCS, MaxHist=1,
                       MaxStream=3), 't'),
+    # byte streams of two documents: a constructor error in the first one leaves the second one unread
+    ('encstreams', cfg(LoadOps=['load_all', 'parse'], Backends=['py', 'c'], IOs=['file'],
+                       Docs=['u8_r3_c21_KE', 'u8_r3_c32_ok', 'ule_r3_c41_KE', 'ube_f_c42_ok', 'plain'], MaxHist=1, MaxStream=2), 'qt'),
     ('vstreams3d', cfg(DumpOps=['dump_all'], Classes=['user'], Backends=['py', 'c'],
                        Vals=['plainv', 'shared2', 'tagged', 'usesve', 'scalarv'], MaxHist=1, MaxStream=3), 'q'),
     ('vstreams3s', cfg(DumpOps=['serialize_all'], Classes=['user'], Backends=['py', 'c'],
@@ -166,7 +189,11 @@ def consts(c):
     return {k: tla(v) for k, v in c.items()}
 
 
+PAR = max(1, min(16, int(os.environ.get('VERIF_TRACE_PAR', '16'))))       # the machine's share for this run
+
+
 def run_tlc(tag, cfgfile, c, workers, timeout=1500, dump=False):
+    workers = min(workers, PAR)
     return tlc.run('Api', cfg=cfgfile, tag=tag, constants=consts(c), workers=workers, timeout=timeout, coverage=False,
                    heap='4g', dump=dump)
 
@@ -371,8 +398,8 @@ def main(tier, replay=None):
     tlc_wall = {}
     t0 = time.time()
     # the worker processes are created first, while this process is still small: their forks stay cheap
-    pool = mp.get_context('fork').Pool(16, initializer=_init_worker)
-    ex = ThreadPoolExecutor(max_workers=8)
+    pool = mp.get_context('fork').Pool(PAR, initializer=_init_worker)
+    ex = ThreadPoolExecutor(max_workers=8 if PAR >= 16 else 2)
     # ---- (a)-(c) design checks, started in the background
     micro = cfg(LoadOps=ALL_LOAD, GenOps=['load_all', 'parse'], DumpOps=ALL_DUMP, Classes=['user'], Backends=['py', 'c'],
                 IOs=['file'], Docs=['comperr', 'tagdir', 'usetag', 'rec', 'ugen', 'ydeep', 'ykeyed'], Vals=['shared2', 'reprerr', 'tagged', 'usesve', 'urepr'],
@@ -392,8 +419,10 @@ def main(tier, replay=None):
         futs['mut_' + m] = ex.submit(run_tlc, 'C11_mut_' + m, 'MC_Api_hist.cfg', mutation_cfg(m), 2, 900)
 
     # ---- (d), (e) MBT configurations
-    hist_cfgs = [(n, c) for n, c, tiers in HIST_CONFIGS if letter in tiers]
-    stream_cfgs = [(n, c) for n, c, tiers in STREAM_CONFIGS if letter in tiers]
+    import re as _re
+    only = _re.compile(os.environ.get('VERIF_C11_ONLY', ''))          # development aid: a subset of the MBT configurations
+    hist_cfgs = [(n, c) for n, c, tiers in HIST_CONFIGS if letter in tiers and only.search(n)]
+    stream_cfgs = [(n, c) for n, c, tiers in STREAM_CONFIGS if letter in tiers and only.search(n)]
     order = sorted(hist_cfgs + stream_cfgs, key=lambda x: 0 if x[0].startswith(('vstreams', 'streams', 'load')) else 1)
     mbt = {n: ex.submit(run_tlc, 'C11_' + n, 'MC_Api_mbt.cfg', c, 3, 2400) for n, c in order}
 
